@@ -802,6 +802,11 @@ func fdReadOrPread(mod api.Module, params []uint64, isPread bool) experimentalsy
 
 func readv(mem api.Memory, iovs uint32, iovsCount uint32, reader func(buf []byte) (nread int, errno experimentalsys.Errno)) (uint32, experimentalsys.Errno) {
 	var nread uint32
+	// That many iovecs cannot fit in a 32-bit address space: fail here, as
+	// otherwise iovsCount*8 below would wrap around.
+	if iovsCount > math.MaxUint32>>3 {
+		return 0, experimentalsys.EFAULT
+	}
 	iovsStop := iovsCount << 3 // iovsCount * 8
 	iovsBuf, ok := mem.Read(iovs, iovsStop)
 	if !ok {
@@ -1286,6 +1291,11 @@ func fdWriteOrPwrite(mod api.Module, params []uint64, isPwrite bool) experimenta
 
 func writev(mem api.Memory, iovs uint32, iovsCount uint32, writer func(buf []byte) (n int, errno experimentalsys.Errno)) (uint32, experimentalsys.Errno) {
 	var nwritten uint32
+	// That many iovecs cannot fit in a 32-bit address space: fail here, as
+	// otherwise iovsCount*8 below would wrap around.
+	if iovsCount > math.MaxUint32>>3 {
+		return 0, experimentalsys.EFAULT
+	}
 	iovsStop := iovsCount << 3 // iovsCount * 8
 	iovsBuf, ok := mem.Read(iovs, iovsStop)
 	if !ok {
